@@ -1,0 +1,82 @@
+//go:build verif
+
+package txpool
+
+import (
+	"github.com/oasisprotocol/oasis-core/go/common/crypto/hash"
+	"github.com/oasisprotocol/oasis-core/go/runtime/host/protocol"
+)
+
+// VerifMainQueue exposes the package-private main queue and its scheduler to
+// the external verification harness. Only compiled with the verif build tag.
+type VerifMainQueue struct {
+	q *mainQueue
+}
+
+// NewVerifMainQueue creates a main queue with the given capacity.
+func NewVerifMainQueue(capacity int) *VerifMainQueue {
+	return &VerifMainQueue{q: newMainQueue(capacity)}
+}
+
+// Add adds a transaction through mainQueue.Add (forward to the sender's state
+// sequence number followed by scheduler add).
+func (v *VerifMainQueue) Add(h hash.Hash, sender string, seq, priority, stateSeq uint64) error {
+	return v.q.Add(&TxQueueMeta{hash: h}, &protocol.CheckTxMetadata{
+		Priority:       priority,
+		Sender:         []byte(sender),
+		SenderSeq:      seq,
+		SenderStateSeq: stateSeq,
+	})
+}
+
+// Schedule resets the running pass and schedules up to limit transactions.
+func (v *VerifMainQueue) Schedule(limit int) []hash.Hash {
+	return verifHashes(v.q.Schedule(limit))
+}
+
+// ScheduleExtra continues the running pass.
+func (v *VerifMainQueue) ScheduleExtra(limit int) []hash.Hash {
+	return verifHashes(v.q.ScheduleExtra(limit))
+}
+
+// Reset resets the running pass without scheduling.
+func (v *VerifMainQueue) Reset() {
+	v.q.mu.Lock()
+	defer v.q.mu.Unlock()
+	v.q.scheduler.reset()
+}
+
+// HandleTxUsed marks the given transaction as used.
+func (v *VerifMainQueue) HandleTxUsed(h hash.Hash) {
+	v.q.HandleTxsUsed([]hash.Hash{h})
+}
+
+// Forward forwards the sender's queue to the given sequence number.
+func (v *VerifMainQueue) Forward(sender string, seq uint64) {
+	v.q.mu.Lock()
+	defer v.q.mu.Unlock()
+	v.q.scheduler.forward(sender, seq)
+}
+
+// All returns the hashes of all transactions in the queue.
+func (v *VerifMainQueue) All() []hash.Hash {
+	return verifHashes(v.q.All())
+}
+
+// Size returns the number of transactions in the queue.
+func (v *VerifMainQueue) Size() int {
+	return v.q.Size()
+}
+
+// Drain removes and returns all transactions.
+func (v *VerifMainQueue) Drain() []hash.Hash {
+	return verifHashes(v.q.Drain())
+}
+
+func verifHashes(txs []*TxQueueMeta) []hash.Hash {
+	hs := make([]hash.Hash, 0, len(txs))
+	for _, tx := range txs {
+		hs = append(hs, tx.hash)
+	}
+	return hs
+}
